@@ -1,10 +1,10 @@
 package props
 
 import (
-	"github.com/form3tech-oss/f1/v2/internal/trigger/file"
-	"github.com/form3tech-oss/f1/v2/internal/trigger/api"
-	"github.com/form3tech-oss/f1/v2/internal/ui"
 	"fmt"
+	"github.com/form3tech-oss/f1/v2/internal/trigger/api"
+	"github.com/form3tech-oss/f1/v2/internal/trigger/file"
+	"github.com/form3tech-oss/f1/v2/internal/ui"
 	"math"
 	"strconv"
 	"strings"
@@ -138,11 +138,25 @@ func c11Run(c *core.Case, o *core.Outcome) {
 				strconv.FormatFloat(vol, 'f', -1, 64), R, f, peak, sigma)
 			rs, perr := file.ParseConfigFile([]byte(y), time.Now())
 			desc += " via a config-file stage with weights \"\" under default weights 1,3"
-			if perr != nil || len(rs.Stages) != 1 || rs.Stages[0].Rate == nil {
+			judged := 0
+			if unit := map[bool]time.Duration{true: time.Second, false: time.Millisecond}[peak >= 2*time.Second]; peak >= 2*time.Millisecond && r.IntN(2) == 0 {
+				// the peak comes from the default section, and an earlier stage of the plan inherits it too although its own
+				// window is not longer than that offset (that stage is outside the property and is not judged)
+				r1 := peak.Truncate(unit)
+				y2 := strings.Replace(y, "  weights: \"1,3\"\n", fmt.Sprintf("  weights: \"1,3\"\n  peak: %s\n", peak), 1)
+				y2 = strings.Replace(y2, fmt.Sprintf("  peak: %s\n  standard-deviation: %s\n  weights: \"\"\n", peak, sigma), fmt.Sprintf("  standard-deviation: %s\n  weights: \"\"\n", sigma), 1)
+				y2 = strings.Replace(y2, "stages:\n", fmt.Sprintf("stages:\n- duration: 1h\n  mode: gaussian\n  volume: 100\n  repeat: %s\n  iteration-frequency: %s\n  standard-deviation: %s\n  weights: \"\"\n", r1, unit, r1), 1)
+				if rs2, perr2 := file.ParseConfigFile([]byte(y2), time.Now()); perr2 == nil && len(rs2.Stages) == 2 && rs2.Stages[1].Rate != nil {
+					rs, perr, judged = rs2, nil, 1
+					desc += fmt.Sprintf(", its peak inherited from the default section, after a stage with repeat %s inheriting the same peak", r1)
+					o.AddObs("file_stages_after_a_short_window_stage", 1)
+				}
+			}
+			if perr != nil || len(rs.Stages) != judged+1 || rs.Stages[judged].Rate == nil {
 				o.Violate("gauss-rejected:"+desc, "valid gaussian stage rejected: %s: %v", desc, perr)
 				return
 			}
-			rate = rs.Stages[0].Rate
+			rate = rs.Stages[judged].Rate
 			viaRates = false
 		} else if viaFlags {
 			b := gaussian.Rate(ui.NewDiscardOutput())
